@@ -1,0 +1,217 @@
+//! Verification hook (only with `--features verif`).
+//!
+//! `__verif_batch!("<jobs file>")` reads length-prefixed job records, pushes each
+//! through the real entry points / helpers of this crate and writes the results to
+//! `<jobs file>.out`.  Nothing in here is reachable with the feature off.
+//!
+//! Record format (jobs and results alike):
+//!   `<tag> <nfields>\n` followed by nfields times `<len>\n<bytes>\n`.
+
+use std::panic::{catch_unwind, AssertUnwindSafe};
+use std::path::PathBuf;
+
+fn read_records(text: &[u8]) -> Vec<(String, Vec<Vec<u8>>)> {
+    let mut pos = 0usize;
+    let mut out = vec![];
+    let line = |pos: &mut usize| -> Option<String> {
+        if *pos >= text.len() { return None; }
+        let start = *pos;
+        while *pos < text.len() && text[*pos] != b'\n' { *pos += 1; }
+        let l = String::from_utf8_lossy(&text[start..*pos]).to_string();
+        *pos += 1;
+        Some(l)
+    };
+    while let Some(head) = line(&mut pos) {
+        if head.trim().is_empty() { continue; }
+        let mut it = head.split_whitespace();
+        let tag = it.next().unwrap().to_string();
+        let n: usize = it.next().unwrap().parse().unwrap();
+        let mut fields = vec![];
+        for _ in 0..n {
+            let len: usize = line(&mut pos).unwrap().trim().parse().unwrap();
+            fields.push(text[pos..pos + len].to_vec());
+            pos += len + 1;
+        }
+        out.push((tag, fields));
+    }
+    out
+}
+
+fn write_record(out: &mut Vec<u8>, tag: &str, fields: &[Vec<u8>]) {
+    out.extend_from_slice(format!("{} {}\n", tag, fields.len()).as_bytes());
+    for f in fields {
+        out.extend_from_slice(format!("{}\n", f.len()).as_bytes());
+        out.extend_from_slice(f);
+        out.push(b'\n');
+    }
+}
+
+fn s(f: &[u8]) -> String { String::from_utf8_lossy(f).to_string() }
+
+fn panic_msg(e: Box<dyn std::any::Any + Send>) -> String {
+    if let Some(m) = e.downcast_ref::<&str>() { m.to_string() }
+    else if let Some(m) = e.downcast_ref::<String>() { m.clone() }
+    else { "<non-string panic>".to_string() }
+}
+
+/// class of a token stream returned by one of the entry points
+fn classify(ts: &str) -> &'static str {
+    if ts.contains("compile_error !") || ts.contains("compile_error!") { "DIAG" } else { "TOKENS" }
+}
+
+fn run_entry(kind: &str, attr: &str, item: &str) -> (String, Vec<Vec<u8>>) {
+    let attr_ts: Result<proc_macro::TokenStream, _> = attr.parse();
+    let item_ts: Result<proc_macro::TokenStream, _> = item.parse();
+    let (attr_ts, item_ts) = match (attr_ts, item_ts) {
+        (Ok(a), Ok(i)) => (a, i),
+        _ => return ("LEXERR".into(), vec![]),
+    };
+    let t0 = std::time::Instant::now();
+    let res = catch_unwind(AssertUnwindSafe(|| match kind {
+        "actor" => crate::actor(attr_ts, item_ts),
+        "family" => crate::family(attr_ts, item_ts),
+        _ => crate::example(attr_ts, item_ts),
+    }));
+    let ms = t0.elapsed().as_millis().to_string().into_bytes();
+    match res {
+        Ok(ts) => {
+            let txt = ts.to_string();
+            (classify(&txt).to_string(), vec![txt.into_bytes(), ms])
+        }
+        Err(e) => ("PANIC".into(), vec![panic_msg(e).into_bytes(), ms]),
+    }
+}
+
+fn with_env<T>(manifest: Option<&str>, cwd: Option<&str>, f: impl FnOnce() -> T) -> T {
+    let old_m = std::env::var("CARGO_MANIFEST_DIR").ok();
+    let old_c = std::env::current_dir().ok();
+    if let Some(m) = manifest { if !m.is_empty() { std::env::set_var("CARGO_MANIFEST_DIR", m); } }
+    if let Some(c) = cwd { if !c.is_empty() { let _ = std::env::set_current_dir(c); } }
+    let r = f();
+    match old_m { Some(m) => std::env::set_var("CARGO_MANIFEST_DIR", m), None => std::env::remove_var("CARGO_MANIFEST_DIR") }
+    if let Some(c) = old_c { let _ = std::env::set_current_dir(c); }
+    r
+}
+
+fn run_fn(name: &str, f: &[Vec<u8>]) -> (String, Vec<Vec<u8>>) {
+    let arg = |i: usize| -> String { f.get(i).map(|x| s(x)).unwrap_or_default() };
+    let r = catch_unwind(AssertUnwindSafe(|| -> Vec<Vec<u8>> {
+        match name {
+            "script_field" => {
+                let id = syn::parse_str::<syn::Ident>(&arg(0)).expect("not an ident");
+                vec![crate::model::name::script_field(&id).to_string().into_bytes()]
+            }
+            "family_field_name" => {
+                let id = syn::parse_str::<syn::Ident>(&arg(0)).expect("not an ident");
+                vec![crate::model::name::family_field_name(&id).to_string().into_bytes()]
+            }
+            "atp_lines" => {
+                // blank comments / strings / chars of a whole text, line by line, as ItemCodeBlock does
+                let mut atp = crate::parse::ActiveTextParser::new(0);
+                let mut out = vec![];
+                for (i, l) in arg(0).lines().enumerate() {
+                    let (_, b) = atp.parse((i, l.to_string()));
+                    out.push(b.into_bytes());
+                }
+                out
+            }
+            "edit_remove" => {
+                vec![crate::parse::nested::edit_remove_active_file_args(&arg(0), &arg(1)).into_bytes()]
+            }
+            "is_active" => {
+                let text = format!("{} fn foo(){{}}", arg(0));
+                let item = syn::parse_str::<syn::ItemFn>(&text).expect("attr does not parse");
+                let a = item.attrs.into_iter().next().expect("no attr");
+                vec![format!("{}", crate::parse::nested::is_active(&a)).into_bytes()]
+            }
+            "write" => {
+                let p = PathBuf::from(arg(1));
+                let r = crate::write::write(arg(0), &p);
+                vec![format!("{}", r.is_ok()).into_bytes()]
+            }
+            "channels_import" => {
+                let lib = crate::model::Lib::from(&arg(0));
+                crate::check::channels_import(&lib);
+                vec![b"accept".to_vec()]
+            }
+            _ => panic!("unknown fn job {}", name),
+        }
+    }));
+    match r {
+        Ok(v) => ("VALUE".into(), v),
+        Err(e) => {
+            // `abort!` unwinds with a private payload that the entry point around us must see
+            if e.downcast_ref::<&str>().is_none() && e.downcast_ref::<String>().is_none() { std::panic::resume_unwind(e); }
+            ("PANIC".into(), vec![panic_msg(e).into_bytes()])
+        }
+    }
+}
+
+thread_local! {
+    static FN_JOB: std::cell::RefCell<(String, Vec<Vec<u8>>)> = std::cell::RefCell::new((String::new(), vec![]));
+    static FN_RES: std::cell::RefCell<(String, Vec<Vec<u8>>)> = std::cell::RefCell::new((String::new(), vec![]));
+}
+
+/// `fn:` jobs that may call `abort!` need the proc_macro_error entry point around them
+#[proc_macro_error::proc_macro_error(allow_not_macro)]
+fn guarded(_ts: proc_macro::TokenStream) -> proc_macro::TokenStream {
+    let (name, fields) = FN_JOB.with(|j| j.borrow().clone());
+    let r = run_fn(&name, &fields);
+    FN_RES.with(|x| *x.borrow_mut() = r);
+    proc_macro::TokenStream::new()
+}
+
+pub fn batch(input: proc_macro::TokenStream) -> proc_macro::TokenStream {
+    let path = syn::parse::<syn::LitStr>(input).expect("__verif_batch!(\"path\")").value();
+    let text = std::fs::read(&path).expect("cannot read jobs file");
+    let jobs = read_records(&text);
+    let mut out: Vec<u8> = vec![];
+    // silence the default panic printer while jobs run
+    let hook = std::panic::take_hook();
+    std::panic::set_hook(Box::new(|_| {}));
+    for (tag, f) in jobs {
+        let arg = |i: usize| -> String { f.get(i).map(|x| s(x)).unwrap_or_default() };
+        match tag.as_str() {
+            "actor" | "family" | "example" => {
+                // fields: attr, item, [manifest dir], [cwd]
+                let (m, c) = (arg(2), arg(3));
+                let (cls, vals) = with_env(Some(&m), Some(&c), || run_entry(&tag, &arg(0), &arg(1)));
+                write_record(&mut out, &cls, &vals);
+            }
+            "expand2" => {
+                // fields: kind, attr, item  -> both expansions
+                let (c1, v1) = run_entry(&arg(0), &arg(1), &arg(2));
+                let (c2, v2) = run_entry(&arg(0), &arg(1), &arg(2));
+                let mut vals = vec![c1.into_bytes()];
+                vals.push(v1.get(0).cloned().unwrap_or_default());
+                vals.push(c2.into_bytes());
+                vals.push(v2.get(0).cloned().unwrap_or_default());
+                write_record(&mut out, "PAIR", &vals);
+            }
+            t if t.starts_with("fn:") => {
+                // fields: manifest dir ("" = unchanged), then the helper's arguments
+                let name = &t[3..];
+                let m = arg(0);
+                FN_JOB.with(|j| *j.borrow_mut() = (name.to_string(), f.iter().skip(1).cloned().collect()));
+                FN_RES.with(|x| *x.borrow_mut() = ("NORESULT".to_string(), vec![]));
+                let res = with_env(Some(&m), None, || catch_unwind(AssertUnwindSafe(|| guarded(proc_macro::TokenStream::new()))));
+                match res {
+                    Ok(ts) => {
+                        let txt = ts.to_string();
+                        if classify(&txt) == "DIAG" {
+                            write_record(&mut out, "DIAG", &[txt.into_bytes()]);
+                        } else {
+                            let (cls, vals) = FN_RES.with(|x| x.borrow().clone());
+                            write_record(&mut out, &cls, &vals);
+                        }
+                    }
+                    Err(e) => write_record(&mut out, "PANIC", &[panic_msg(e).into_bytes()]),
+                }
+            }
+            other => write_record(&mut out, "UNKNOWNJOB", &[other.as_bytes().to_vec()]),
+        }
+    }
+    std::panic::set_hook(hook);
+    std::fs::write(format!("{}.out", path), out).expect("cannot write results");
+    proc_macro::TokenStream::new()
+}
